@@ -60,6 +60,9 @@ class H5DataSet:
             # h5py 2.10 in Python2 throws TypeError for out-of-bounds index
             # Let's change it to IndexError
             raise IndexError(te_exc)
+        if isinstance(data, (bytes, str)):
+            # a single element of a text dataset comes back as a bare string
+            return np.array(ensure_str(data), dtype=object)
         if data.dtype == util.vlen_str_dtype:
             data = np.reshape(np.array(list(map(ensure_str, data.ravel())), dtype=object), data.shape)
         elif data.dtype.fields:
